@@ -229,12 +229,14 @@ pub enum Op {
     /// which: 0 iter 1 drain 2 into_iter
     SetIter { s: u8, which: u8, clone_at: Option<u16>, take: Option<u16>, forget: bool },
     SetExtend { s: u8, items: Vec<KeySel>, by_ref: bool, from_iter: bool },
-    /// which: 0 clear 1 reserve 2 shrink_to 3 shrink_to_fit 4 trigger growth
+    /// which: 0 clear 1 reserve 2 shrink_to 3 shrink_to_fit 4 trigger growth 5 try_reserve
     SetMisc { s: u8, which: u8, arg: CapArg },
     SetClone { dst: u8, src: u8, from: bool },
     SetAlgebra,
     SetPar { threads: u8, reps: u8 },
-    SetSerde { s: u8, in_place: bool },
+    /// `empty`: before the in-place step, an EMPTY sequence is deserialised in place into the
+    /// destination (which must be empty afterwards)
+    SetSerde { s: u8, in_place: bool, #[serde(default)] empty: bool },
 }
 
 impl Op {
@@ -305,11 +307,12 @@ impl Op {
                 _ => "set_into_iter",
             },
             Op::SetExtend { from_iter, .. } => if *from_iter { "set_from_iter" } else { "set_extend" },
-            Op::SetMisc { which, .. } => match which % 5 {
+            Op::SetMisc { which, .. } => match which % 6 {
                 0 => "set_clear",
                 1 => "set_reserve",
                 2 => "set_shrink_to",
                 3 => "set_shrink_to_fit",
+                5 => "set_try_reserve",
                 _ => "set_trigger_growth",
             },
             Op::SetClone { from, .. } => if *from { "set_clone_from" } else { "set_clone" },
